@@ -94,21 +94,27 @@ pub struct B64EngineUrlNoPad { x: u8 }
 pub uninterp spec fn b64_url(s: Seq<u8>) -> Seq<char>;
 pub uninterp spec fn b64_nopad(s: Seq<u8>) -> Seq<char>;
 pub uninterp spec fn b64_url_nopad(s: Seq<u8>) -> Seq<char>;
+/// what `Engine::encode<T: AsRef<[u8]>>` reads from its argument
+pub trait B64Input { spec fn bytes_spec(&self) -> Seq<u8>; }
+impl B64Input for Bytes { open spec fn bytes_spec(&self) -> Seq<u8> { self@ } }
+impl B64Input for &Bytes { open spec fn bytes_spec(&self) -> Seq<u8> { (**self)@ } }
+impl B64Input for Vec<u8> { open spec fn bytes_spec(&self) -> Seq<u8> { self@ } }
+impl B64Input for &Vec<u8> { open spec fn bytes_spec(&self) -> Seq<u8> { (**self)@ } }
 impl B64Engine {
     #[verifier::external_body]
-    pub fn encode(&self, input: Bytes) -> (r: String) ensures r@ == b64(input@) { unimplemented!() }
+    pub fn encode<T: B64Input>(&self, input: T) -> (r: String) ensures r@ == b64(input.bytes_spec()) { unimplemented!() }
 }
 impl B64EngineUrl {
     #[verifier::external_body]
-    pub fn encode(&self, input: Bytes) -> (r: String) ensures r@ == b64_url(input@) { unimplemented!() }
+    pub fn encode<T: B64Input>(&self, input: T) -> (r: String) ensures r@ == b64_url(input.bytes_spec()) { unimplemented!() }
 }
 impl B64EngineNoPad {
     #[verifier::external_body]
-    pub fn encode(&self, input: Bytes) -> (r: String) ensures r@ == b64_nopad(input@) { unimplemented!() }
+    pub fn encode<T: B64Input>(&self, input: T) -> (r: String) ensures r@ == b64_nopad(input.bytes_spec()) { unimplemented!() }
 }
 impl B64EngineUrlNoPad {
     #[verifier::external_body]
-    pub fn encode(&self, input: Bytes) -> (r: String) ensures r@ == b64_url_nopad(input@) { unimplemented!() }
+    pub fn encode<T: B64Input>(&self, input: T) -> (r: String) ensures r@ == b64_url_nopad(input.bytes_spec()) { unimplemented!() }
 }
 pub mod base64 { pub mod engine { pub mod general_purpose {
     use super::super::super::*;
